@@ -68,7 +68,11 @@ func Harness_C03_SelfCertifying() {
 	verifrt.Assert(err2 == nil && op2.UniqueSuffix == op.UniqueSuffix && op2.ID == op.ID, "the same request denotes the same DID whatever its JSON spelling")
 
 	// single-leaf modification: a different DID or a rejection
-	switch verifrt.Choose("modify", 6) {
+	switch verifrt.Choose("modify", 7) {
+	case 6: // the recorded delta hash with one letter's case changed: another, still well-formed multihash text
+		if swapped, ok := verifrt.SwapCase(c.Suffix.DeltaHash); ok {
+			c.Suffix.DeltaHash = swapped
+		}
 	case 0:
 		c.Suffix.RecoveryCommitment = gen.Commitment(gen.Key("other-rec"), clientCode)
 	case 1:
@@ -91,6 +95,7 @@ func Harness_C03_SelfCertifying() {
 	}
 	verifrt.Reach("modified-accepted")
 	verifrt.Assert(!changed || op3.UniqueSuffix != op.UniqueSuffix, "changing any part of suffix data or delta changes the DID or causes rejection")
+	verifrt.Assert(c.Suffix.DeltaHash == gen.ModelHash(c.Delta, clientCode), "outside batch mode the delta of an accepted create request hashes to the delta hash recorded in its suffix data")
 }
 
 // withinLimits: sizes are not the subject here - assume the request and its delta fit the configured limits
